@@ -61,7 +61,7 @@ CONTRACT(PRE_dt_get_year(that), POST_dt_get_year(RV, that));
 #define POST_dt_get_mon(ret, t) ((ret) == S_mon_of_yday(Y_OF(t), YD_OF(t)))
 int dt_get_mon(struct dt_d_s that)
 CONTRACT(PRE_dt_get_mon(that), POST_dt_get_mon(RV, that));
-#define PRE_dt_get_mday(t) (V_d(t) && ((t).typ == DT_YMD || (t).typ == DT_YMCW || (t).typ == DT_DAISY))
+#define PRE_dt_get_mday(t) (V_d(t) && ((t).typ == DT_YMD || (t).typ == DT_YMCW))
 #define POST_dt_get_mday(ret, t) ((ret) == S_mday_of_yday(Y_OF(t), YD_OF(t)))
 int dt_get_mday(struct dt_d_s that)
 CONTRACT(PRE_dt_get_mday(that), POST_dt_get_mday(RV, that));
